@@ -154,6 +154,7 @@ def register(reg):
         loops={1: dict(invariant=clear_inv, decreases=lambda ctx: ctx.get(ctx.self, "data").n)},
     ))
     register2(reg)
+    register3(reg)
 
 
 # ================================================================================================
@@ -369,3 +370,99 @@ REPLAY = {
     f"{OUT}._pack": "seq_output.py", f"{OUT}._unpack": "seq_output.py", f"{OUT}.finalize": "seq_output.py",
     f"{OUT}.push_data": "seq_output.py",
 }
+
+
+# ================================================================================================
+# third part: notify_targets, push_data (C08.2, C01.4, C20.1)
+# ================================================================================================
+def register3(reg):
+    from .base import RETENTION_FIELDS, PREP, notify_log, notified
+
+    def all_suffix(ctx):
+        o = z3.Int(sv.uid("o"))
+        d0, d1 = ctx.old.get(o, "data"), ctx.get(o, "data")
+        return z3.ForAll([o], suffix_of(d1, d0), patterns=[d1.n])
+
+    def nt_mod(ctx):
+        return [(None, f) for f in RETENTION_FIELDS] + [(WORLD, "$notify_log")]
+
+    def nt_post(ctx, r):
+        tg = ctx.old.get(ctx.self, "_targets")
+        return And(all_suffix(ctx), notified(ctx, notify_log(ctx.old), notify_log(ctx), tg, tg.n, ctx.time))
+
+    def nt_inv(ctx):
+        tg = ctx.old.get(ctx.self, "_targets")
+        return And(all_suffix(ctx), notified(ctx, notify_log(ctx.old), notify_log(ctx), tg, ctx.k, ctx.time))
+
+    reg.add(Contract(
+        f"{OUT}.notify_targets", self_cls="Output", props=["C08.2", "C01.4"], params={"time": TimeOpt},
+        requires=lambda ctx: Or(ctx.get(ctx.self, "_static").e, Not(is_none(ctx.time))),
+        ensures=nt_post, modifies=nt_mod, loops={1: dict(invariant=nt_inv)},
+    ))
+
+    # ---------------------------------------------------------------- push_data, non-static output
+    def has_targets(ctx):
+        return ctx.old.get(ctx.self, "_targets").n > 0
+
+    def not_exchanged(ctx):
+        o = ctx.self
+        c0 = ctx.old
+        return And(has_targets(ctx), Or(is_none(c0.get(o, "_output_info")),
+                                        c0.get(o, "_out_infos_exchanged").e < c0.get(o, "_connected_inputs").keys.n))
+
+    def pd_pre(ctx):
+        o = ctx.self
+        h = ctx.get(o, "$hist")
+        t_last = ctx.get(o, "_time")
+        return And(Not(ctx.get(o, "_static").e), out_inv(ctx, o), names_ok(ctx, o, h), ctx.get(o, "_mem_counter").e >= 0,
+                   Not(is_none(ctx.time)),
+                   Implies(h.n > 0, And(Not(is_none(t_last)), strip_none(t_last).e == tm(h, h.n - 1),
+                                        strip_none(ctx.time).e > tm(h, h.n - 1))))
+
+    def pd_post(ctx, r):
+        o = ctx.self
+        c0 = ctx.old
+        d0, d1 = c0.get(o, "data"), ctx.get(o, "data")
+        tg = c0.get(o, "_targets")
+        info_e = ctx.ex.key_expr(c0.get(o, "_output_info"))
+        t = strip_none(ctx.time).e
+        new = d1.at(d1.n - 1)
+        i = z3.Int(sv.uid("pi"))
+        off = d0.n + 1 - d1.n
+        published = And(
+            d1.n >= 1, d1.n <= d0.n + 1, Not(is_none(new.items[0])), strip_none(new.items[0]).e == t,
+            val_in(ctx, new.items[1]) == PREP(ctx.data.e, info_e),
+            # older entries: a suffix of the previous buffer (targets may pull and evict while being notified)
+            z3.ForAll([i], Implies(And(0 <= i, i < d1.n - 1), sv.value_eq(d1.at(i), d0.at(i + off)))),
+            Not(is_none(ctx.get(o, "_time"))), strip_none(ctx.get(o, "_time")).e == t,
+            notified(ctx, notify_log(c0), notify_log(ctx), tg, tg.n, ctx.time),
+        )
+        untouched = And(d1.n == d0.n, notify_log(ctx).n == notify_log(c0).n,
+                        sv.value_eq(ctx.get(o, "_time"), c0.get(o, "_time")))
+        return If(has_targets(ctx), published, untouched)
+
+    def pd_mod(ctx):
+        return ([(None, f) for f in RETENTION_FIELDS] + [(WORLD, "$notify_log"), (WORLD, "$fdata"), (ctx.self, "_time"),
+                                                         (ctx.self, "_mem_counter")])
+
+    def shares(ctx):
+        return has_targets(ctx)  # refusal is only possible when something would be published
+
+    def shares_with_previous(ctx):
+        """the new array shares memory with the previously published one (still in RAM)"""
+        from .base import SHARE
+        o = ctx.self
+        c0 = ctx.old
+        d0 = c0.get(o, "data")
+        last = d0.at(d0.n - 1).items[1]
+        info_e = ctx.ex.key_expr(c0.get(o, "_output_info"))
+        return And(Not(not_exchanged(ctx)), has_targets(ctx), d0.n > 0, Not(entry_is_str(last)),
+                   SHARE(entry_pay_e(last), PREP(ctx.data.e, info_e)))
+
+    reg.add(Contract(
+        f"{OUT}.push_data", self_cls="Output", props=["C08.2", "C01.4", "C10.1"], params={"data": Pay, "time": TimeOpt},
+        requires=pd_pre, ensures=pd_post, modifies=pd_mod,
+        raises={"FinamNoDataError": not_exchanged, "FinamDataError": shares},
+        must_raise={"FinamNoDataError": not_exchanged, "FinamDataError": shares_with_previous},
+        raise_frame_empty=True,
+    ))
